@@ -95,6 +95,8 @@ class ScenarioWorld:
                 for k, v in s.get("points", {}).items():
                     sh["points"][k] = v
                     sh["tainted"].discard(k)
+                    if "poked" in sh:
+                        sh["poked"].discard(k)      # (from now on the scenario declares this table itself)
                 rs = s.get("runspecs", {})
                 if "starttime" in rs:
                     sh["start"] = rs["starttime"]
